@@ -51,7 +51,7 @@ def filesLine (fs : FS) (full : Bool) : String :=
 /-- where the coming event is hit (audit C30.1): the harness names the primitive by what it can observe on the real
 code — "the first primitive of the event", "the n-th Finish", "the first primitive after the FIN batch" — and the
 driver resolves that to an index of the schedule `io : Nat → Fault` by running the model itself -/
-inductive FSel | first | fin (n : Nat) | afterFins
+inductive FSel | first | fin (n : Nat) | afterFins | sync | move
 deriving Repr
 
 structure D where
@@ -93,7 +93,21 @@ def scanAfter (f : (Nat → Fault) → St) (st0 : St) (total : Nat) : Nat → Na
     else if newFins st0 s = total then some t
     else scanAfter f st0 total fuel (t + 1)
 
+/-- the first primitive index whose frozen state satisfies `p` -/
+def scanP (f : (Nat → Fault) → St) (p : St → Bool) : Nat → Nat → Option Nat
+  | 0, _ => none
+  | fuel + 1, t =>
+    let s := f (ioAt t .kill)
+    if s.status ≠ .killed then none
+    else if p s then some t
+    else scanP f p fuel (t + 1)
+
 def resolve (f : (Nat → Fault) → St) (st0 : St) : FSel → Option Nat
+  -- `Sync()` of the sync block of a `msg` event: the record is written (the message sits in `output[]`), nothing finished yet
+  | .sync => scanP f (fun s => decide (s.pending.length > st0.pending.length) && newFins st0 s == 0) 4096 st0.tick
+  -- the link that starts the work-dir → output-dir move in `Close()`: the descriptor was open and is closed now
+  | .move => if st0.hasOut ∧ ¬ st0.outOpen then none
+             else scanP f (fun s => s.hasOut && !s.outOpen) 4096 st0.tick
   | .first => if (f (ioAt st0.tick .kill)).status = .killed then some st0.tick else none
   | .fin n =>
     if n = 0 ∨ newFins st0 (f noFault) < n then none else scanFin f st0 n 4096 st0.tick none
@@ -155,6 +169,8 @@ def tfStep (d : D) (ws : List String) : String × D :=
     match n.toNat? with
     | some n => ("ok", { d with fault := some (.kill, .fin n) })
     | none => ("bad-op", d)
+  | ["fault", "kill", "sync"] => ("ok", { d with fault := some (.kill, .sync) })
+  | ["fault", "kill", "move"] => ("ok", { d with fault := some (.kill, .move) })
   | ["fault", "err", "first"] => ("ok", { d with fault := some (.err, .first) })
   | ["fault", "kill", "first"] => ("ok", { d with fault := some (.kill, .first) })
   | ["fault", "err", "afterfins"] => ("ok", { d with fault := some (.err, .afterFins) })
